@@ -24,7 +24,7 @@ RULE = {'C09': 'seeded scenarios (two trace sets per run, 1-3 runs, batch rule, 
                'threads while both were mid-container or a fault fired; distinct = distinct context-switch digests (sequence of (yield site, chosen thread) hand-overs)'}
 SIM_TIME_UNIT = {'C09': 'scheduler decisions (yield points)'}
 ASSUMPTIONS = {'C09': [
-    'a numba kernel call is one atomic step; two kernels physically overlapping (nogil) is not simulated',
+    'a compiled numba kernel call is one atomic step; two compiled kernels physically overlapping (nogil) is not simulated - in a quarter of the scenarios the kernels of scared.ttest run from their Python source (py_func) instead, where each of their source lines is a pre-emption point',
     'pre-emption granularity is one source line of scared/ (plus call/return, storage fetch, preprocess call); switches inside one line are not explored',
     'Welch reference in exact rational arithmetic on the frame/preprocess image; compared within a forward rounding-error bound of the requested precision; '
     'entries whose reference denominator is zero or whose bound exceeds half the value are not compared',
